@@ -72,7 +72,11 @@ HARNESSES = [
          nochecks=["--conversion-check"],
          malloc_fail=True, flags=["--arrays-uf-always"]),
     # --- added after the lead's seeded-change run (C10-2, C10-3) ---------------
-    dict(name="read_inode", file="read_inode.c", label="proved", timeout=170,
+    # 11 of the 14 inode types (file, ext. file and ext. directory with their
+    # variable payloads are run under C05 only): the split does not cover the
+    # whole domain, hence not labelled proved
+    dict(name="read_inode", file="read_inode.c",
+         label="bounded(11 of 14 inode types)", timeout=170,
          malloc_fail=True, flags=["--arrays-uf-always"],
          nochecks=["--conversion-check"],   # 32 bit payload size fields: C05
          cases=[dict(id=n, defines={"ITYPE": t}, tier="quick")
